@@ -81,7 +81,11 @@ def step (s : Option St) (toks : List String) : Option St × String :=
       | "uu" | "ua" =>
         let w := (argI toks "w" 0).toNat
         let k := (argI toks "in" 0).toNat
-        match (s.wallets.getD w [])[k]? with
+        -- every index named by `more=` must be an output the wallet holds, as `in=` must
+        let moreOk := match arg? toks "more" with
+          | none => true
+          | some m => (m.splitOn ",").all (fun x => match x.toNat? with | some j => j < (s.wallets.getD w []).length | none => false)
+        match (if moreOk then (s.wallets.getD w [])[k]? else none) with
         | none => (some s, "noinput")
         | some o =>
           let declared := match argInt? toks "claim" with | some c => c | none => o.amount
